@@ -28,6 +28,52 @@ class RowLookupWorld:
         self.cols = {"aid": a.c.id, "ax": a.c.x, "al": a.c.longcolname, "ak": a.c.k,
                      "bid": b.c.id, "bx": b.c.x, "by": b.c.y, "bk": b.c.k}
         self.engines = {}
+        # ORM side assertion: the same tables mapped imperatively (attribute keys: id, x, longcolname, k / id, x, y, k)
+        from sqlalchemy.orm import registry
+        reg = registry()
+        self.A = type("A", (object,), {})
+        self.B = type("B", (object,), {})
+        reg.map_imperatively(self.A, a, primary_key=[a.c.id])
+        reg.map_imperatively(self.B, b, primary_key=[b.c.id])
+        A, B = self.A, self.B
+        self.attrs = {"aid": A.id, "ax": A.x, "al": A.longcolname, "ak": A.k, "bid": B.id, "bx": B.x, "by": B.y, "bk": B.k}
+
+    def observe_orm(self, case):
+        """ORM-enabled select of the same select list (mapped attributes instead of table columns) plus the two entities:
+        -> dict(exec_error | cells, attr{id: outcome}, col{id: outcome}, entities{attr id: value})"""
+        sa = self.sa
+        from sqlalchemy import exc
+        from sqlalchemy.orm import Session
+        from sqlalchemy.sql import selectable as sel
+        styles = {"none": sel.LABEL_STYLE_NONE, "tpc": sel.LABEL_STYLE_TABLENAME_PLUS_COL, "dis": sel.LABEL_STYLE_DISAMBIGUATE_ONLY}
+        items = case["items"]
+        out = {}
+        with warnings.catch_warnings():
+            warnings.simplefilter("ignore")
+            with Session(self.engine(case["ll"])) as s:
+                st = sa.select(*[self.attrs[i] for i in items], self.A, self.B).select_from(self.A).join(self.B, sa.true())
+                st = st.set_label_style(styles[case["style"]])
+                try:
+                    row = s.execute(st).first()
+                except exc.InvalidRequestError as e:
+                    return {"exec_error": str(e)[:200]}
+                n = len(items)
+                out["exec_error"] = None
+                out["cells"] = list(row)[:n]
+
+                def oc(fn):
+                    try:
+                        return ("val", fn())
+                    except (exc.InvalidRequestError, KeyError) as e:     # NoSuchColumnError is both
+                        return ("raise", type(e).__name__)
+                    except Exception as e:
+                        return ("exc", "%s: %s" % (type(e).__name__, e))
+                out["attr"] = {i: oc(lambda: row._mapping[self.attrs[i]]) for i in self.attrs}
+                out["col"] = {i: oc(lambda: row._mapping[self.cols[i]]) for i in self.cols}
+                ea, eb = row[n], row[n + 1]
+                out["entities"] = {"aid": ea.id, "ax": ea.x, "al": ea.longcolname, "ak": ea.k, "bid": eb.id, "bx": eb.x, "by": eb.y, "bk": eb.k}
+                out["entity_lookup"] = [oc(lambda: row._mapping[self.A] is ea), oc(lambda: row.A is ea), oc(lambda: row._mapping[self.B] is eb)]
+        return out
 
     def engine(self, ll):
         if ll not in self.engines:
@@ -169,6 +215,8 @@ class RowLookupWorld:
                     r["mappings"] = self.outcome(lambda: [dict(x) for x in res4.mappings().all()])
                     res4.close()
                 out["runs"].append(r)
+        if case["mode"] == "pos" and case["wrap"] == "none" and all(i in self.cols for i in case["items"]):
+            out["orm"] = self.observe_orm(case)
         return out
 
 
@@ -225,6 +273,26 @@ def rowlookup_compare(case, obs):
         else:
             out.append(("other", "%s: real %r, specification %r (pinned %r)" % (what, real, exp(o), exp(l) if l != UNSPEC else None)))
 
+    o = obs.get("orm")
+    if o is not None:
+        once = {i for i in case["items"] if case["items"].count(i) == 1}
+        if o["exec_error"]:
+            # the ORM loader itself looks the selected columns up: it may refuse a list in which a selected column is ambiguous
+            if not any(case["obj"][i][0] == AMB or case["obj"][i][1] == AMB for i in case["items"]):
+                out.append(("other", "ORM select raised %s although no selected column is ambiguous" % o["exec_error"]))
+        else:
+            if o["cells"] != vals:
+                out.append(("other", "ORM row cells %r, expressions %r" % (o["cells"], vals)))
+            for kind in ("attr", "col"):
+                for i, (st_, v) in o[kind].items():
+                    if st_ == "exc" or (st_ == "val" and v != VAL[i]):
+                        out.append(("other", "ORM row._mapping[<%s %s>] = %r, the expression's value is %r" % (kind, i, v, VAL[i])))
+                    elif st_ == "raise" and kind == "attr" and i in once:
+                        out.append(("other", "ORM row._mapping[<attr %s>] raises %s although the attribute is selected exactly once" % (i, v)))
+            if o["entities"] != {i: VAL[i] for i in o["entities"]}:
+                out.append(("other", "ORM entities loaded %r" % (o["entities"],)))
+            if o["entity_lookup"] != [("val", True)] * 3:
+                out.append(("other", "ORM entity lookup %r" % (o["entity_lookup"],)))
     for ri, r in enumerate(obs["runs"]):
         if r["exec_error"]:
             out.append(("other", "run%d: %s %s" % (ri, r["exec_error"], r.get("msg", "")[:200])))
@@ -1180,7 +1248,9 @@ COMPILE_VARIANTS = [("plain", {}, {}), ("literal_binds", {"compile_kwargs": {"li
                     ("schema_translate", {"schema_translate_map": {None: "tr", "sch1": "tr2"}}, {}),
                     ("schema_translate_render", {"schema_translate_map": {None: "tr", "sch1": "tr2"}, "compile_kwargs": {"render_schema_translate": True}}, {})]
 
-DOCUMENTED = ("CompileError", "UnsupportedCompilationError", "ArgumentError", "InvalidRequestError", "NotImplementedError")
+# sqlalchemy.exc.IdentifierError ("identifier exceeds maximum length") is the documented error of the same family for names that
+# cannot be rendered on a dialect; it is accepted like the four classes the property lists
+DOCUMENTED = ("CompileError", "UnsupportedCompilationError", "ArgumentError", "InvalidRequestError", "NotImplementedError", "IdentifierError")
 
 
 def compile_everywhere(builder, x, dialects, variants):
@@ -1213,7 +1283,7 @@ def compile_everywhere(builder, x, dialects, variants):
                             getattr(meta, op)(eng, checkfirst=False)
                         else:
                             str(item.compile(dialect=dialect, **kw))
-                except (exc.CompileError, exc.ArgumentError, exc.InvalidRequestError, NotImplementedError):
+                except (exc.CompileError, exc.ArgumentError, exc.InvalidRequestError, exc.IdentifierError, NotImplementedError):
                     doc += 1
                 except Exception as e:
                     tb = traceback.extract_tb(e.__traceback__)
